@@ -40,3 +40,323 @@ Example estimator_rounds_up : exists n b k acc, n <= acc /\ stops n b k acc = fa
 Proof.
   exists 7, 5, 11, 7. split; [lia|]. vm_compute. reflexivity.
 Qed.
+
+(** ---- the same safety statement on an UNBOUNDED domain (all sizes up to 2^40), by a rounding-error
+    analysis instead of evaluation ----
+    Route: Flocq's bridge [Flocq.IEEE754.PrimFloat] (Prim2B, div_equiv, mul_equiv, add_equiv,
+    of_int63_equiv, leb_equiv) moves each primitive binary64 operation to Flocq's [binary_float];
+    Bdiv_correct / Bmult_correct / Bplus_correct / binary_normalize_correct give the real value as a
+    rounding to nearest-even; relative_error_N_FLT_ex bounds every rounding by a relative error
+    |e| <= 2^-53 (all intermediate values stay within [2^-100, 2^100], so neither underflow nor
+    overflow occurs); [fl z] is exact for 0 <= z < 2^53.
+    With j batches of size b consumed (n_sim = j*b) and a acceptable draws the computed
+      x = ((n / (a / n_sim) + margin) / b)     equals    (n/a) * j * P + Q
+    with P = (1+e2)(1+e5)(1+e6)/(1+e1) in [1 - 2^-50, 1 + 2^-50] and, when a < n,
+    Q = c(1+e3)(1+e4)(1+e5)(1+e6) >= 0.19 (c the binary64 constant 0.2), Q = 0 when n <= a.
+    Hence a < n gives x > j (j <= 2^40 so j * 2^-50 <= 2^-10 < 0.19) and n <= a gives x <= j + 1;
+    [ceil_from] then returns at least j + 1, respectively at most j + 1, within its fuel. *)
+From Coq Require Import Reals Lra Floats.
+From Flocq Require Import Core BinarySingleNaN PrimFloat Relative.
+From Interval Require Import Tactic.
+
+Local Open Scope R_scope.
+
+Definition fv (x : PrimFloat.float) (r : R) : Prop := is_finite (Prim2B x) = true /\ B2R (Prim2B x) = r.
+Local Notation u := (/ 9007199254740992)%R.
+
+Lemma pow2_bpow (m : nat) : 2 ^ m = bpow radix2 (Z.of_nat m).
+Proof. rewrite <- IZR_Zpower by lia. rewrite pow_IZR. reflexivity. Qed.
+
+Lemma rnd_rel r : r = 0 \/ / 2 ^ 100 <= Rabs r ->
+  exists e, - u <= e <= u /\ round radix2 (fexp prec emax) (round_mode mode_NE) r = r * (1 + e).
+Proof.
+  intros [->|H].
+  - exists 0. split; [lra|]. rewrite round_0; [lra|]. apply valid_rnd_N.
+  - destruct (relative_error_N_FLT_ex radix2 (3 - emax - prec) prec eq_refl (fun x => negb (Z.even x)) r) as [e [He Hr]].
+    + eapply Rle_trans; [|exact H].
+      rewrite pow2_bpow, <- bpow_opp. apply bpow_le. unfold emax, prec. lia.
+    + exists e. split; [|exact Hr].
+      apply Rabs_le_inv. eapply Rle_trans; [exact He|].
+      unfold prec. simpl. lra.
+Qed.
+
+Lemma small_lt_emax r : Rabs r <= 2 ^ 101 -> Rabs r < bpow radix2 emax.
+Proof.
+  intros H. eapply Rle_lt_trans; [exact H|]. rewrite pow2_bpow. apply bpow_lt. unfold emax. lia.
+Qed.
+
+Lemma fv_fl z : (0 <= z < 2 ^ 53)%Z -> fv (fl z) (IZR z).
+Proof.
+  intros Hz. unfold fv, fl. rewrite of_int63_equiv, Uint63.of_Z_spec, Z.mod_small.
+  2:{ change Uint63.wB with (2 ^ 63)%Z. lia. }
+  generalize (binary_normalize_correct prec emax Hprec Hmax mode_NE z 0 false). cbv zeta.
+  assert (E : F2R (Float radix2 z 0) = IZR z) by (unfold F2R; simpl; lra).
+  rewrite E, round_generic.
+  - rewrite Rlt_bool_true.
+    + intros [H1 [H2 _]]. split; assumption.
+    + apply small_lt_emax. rewrite Rabs_pos_eq by (apply IZR_le; lia).
+      rewrite pow2_bpow, <- IZR_Zpower by lia. change (IZR z <= IZR (2 ^ 101)). apply IZR_le. lia.
+  - apply valid_rnd_N.
+  - apply generic_format_FLT. apply FLT_spec with (Float radix2 z 0).
+    + now rewrite E.
+    + change (Z.abs z < 2 ^ 53)%Z. lia.
+    + change (-1074 <= 0)%Z. lia.
+Qed.
+
+Local Notation cst := 0x1.999999999999ap-3%float.
+Local Notation C := (7205759403792794 / 36028797018963968)%R.
+
+Lemma fv_cst : fv cst C.
+Proof.
+  unfold fv, Prim2B. rewrite B2R_SF2B, is_finite_SF2B.
+  change (Prim2SF cst) with (S754_finite false 7205759403792794 (-55)).
+  split; [reflexivity|]. unfold SF2R, F2R. simpl. lra.
+Qed.
+
+Ltac finish_op Hr Hrd He Ha Hb :=
+  rewrite Hrd; apply small_lt_emax;
+  destruct Hr as [Hr|Hr]; [rewrite Hr, Rmult_0_l, Rabs_R0; apply pow_le; lra|];
+  rewrite Rabs_mult; apply Rle_trans with (2 ^ 100 * 2);
+  [apply Rmult_le_compat; try apply Rabs_pos; [tauto|apply Rabs_le; lra] | simpl; lra].
+
+Lemma fv_div a b ra rb : fv a ra -> fv b rb -> rb <> 0 ->
+  (ra / rb = 0 \/ / 2 ^ 100 <= Rabs (ra / rb) <= 2 ^ 100) ->
+  exists e, - u <= e <= u /\ fv (a / b)%float (ra / rb * (1 + e)).
+Proof.
+  intros [Fa Ha] [Fb Hb] Hnz Hr.
+  destruct (rnd_rel (ra / rb)) as [e [He Hrd]]; [tauto|].
+  exists e. split; [exact He|]. unfold fv. rewrite div_equiv.
+  generalize (Bdiv_correct prec emax Hprec Hmax mode_NE (Prim2B a) (Prim2B b)).
+  rewrite Ha, Hb. intros H. specialize (H Hnz). rewrite Rlt_bool_true in H.
+  - destruct H as [H1 [H2 _]]. split; [rewrite H2; exact Fa | rewrite H1; exact Hrd].
+  - finish_op Hr Hrd He Ha Hb.
+Qed.
+
+Lemma fv_mul a b ra rb : fv a ra -> fv b rb ->
+  (ra * rb = 0 \/ / 2 ^ 100 <= Rabs (ra * rb) <= 2 ^ 100) ->
+  exists e, - u <= e <= u /\ fv (a * b)%float (ra * rb * (1 + e)).
+Proof.
+  intros [Fa Ha] [Fb Hb] Hr.
+  destruct (rnd_rel (ra * rb)) as [e [He Hrd]]; [tauto|].
+  exists e. split; [exact He|]. unfold fv. rewrite mul_equiv.
+  generalize (Bmult_correct prec emax Hprec Hmax mode_NE (Prim2B a) (Prim2B b)).
+  rewrite Ha, Hb. intros H. rewrite Rlt_bool_true in H.
+  - destruct H as [H1 [H2 _]]. split; [rewrite H2, Fa, Fb; reflexivity | rewrite H1; exact Hrd].
+  - finish_op Hr Hrd He Ha Hb.
+Qed.
+
+Lemma fv_add a b ra rb : fv a ra -> fv b rb ->
+  (ra + rb = 0 \/ / 2 ^ 100 <= Rabs (ra + rb) <= 2 ^ 100) ->
+  exists e, - u <= e <= u /\ fv (a + b)%float ((ra + rb) * (1 + e)).
+Proof.
+  intros [Fa Ha] [Fb Hb] Hr.
+  destruct (rnd_rel (ra + rb)) as [e [He Hrd]]; [tauto|].
+  exists e. split; [exact He|]. unfold fv. rewrite add_equiv.
+  generalize (Bplus_correct prec emax Hprec Hmax mode_NE (Prim2B a) (Prim2B b) Fa Fb).
+  rewrite Ha, Hb. intros H. rewrite Rlt_bool_true in H.
+  - destruct H as [H1 [H2 _]]. split; [exact H2 | rewrite H1; exact Hrd].
+  - finish_op Hr Hrd He Ha Hb.
+Qed.
+
+Lemma leb_fl x X i : fv x X -> (0 <= i < 2 ^ 53)%Z -> PrimFloat.leb x (fl i) = Rle_bool X (IZR i).
+Proof.
+  intros [Fx Hx] Hi. destruct (fv_fl i Hi) as [Fi Hi'].
+  rewrite leb_equiv, Bleb_correct by assumption. now rewrite Hx, Hi'.
+Qed.
+
+Local Open Scope Z_scope.
+
+Lemma ceil_from_ge fuel : forall k x, k <= ceil_from fuel k x.
+Proof.
+  induction fuel as [|f IH]; intros k x; simpl; [lia|].
+  destruct (PrimFloat.leb x (fl k)); [lia|]. specialize (IH (k + 1) x). lia.
+Qed.
+
+Lemma ceil_from_lower x m fuel : forall k,
+  (forall i, k <= i <= m -> PrimFloat.leb x (fl i) = false) ->
+  m + 1 - k <= Z.of_nat fuel -> m + 1 <= ceil_from fuel k x.
+Proof.
+  induction fuel as [|f IH]; intros k Hall Hf; simpl.
+  - lia.
+  - destruct (Z_le_gt_dec k m) as [Hk|Hk].
+    + rewrite Hall by lia. apply IH; [intros i Hi; apply Hall; lia | lia].
+    + destruct (PrimFloat.leb x (fl k)); [lia|]. pose proof (ceil_from_ge f (k + 1) x). lia.
+Qed.
+
+Lemma ceil_from_upper x m fuel : forall k,
+  PrimFloat.leb x (fl m) = true -> k <= m -> m - k <= Z.of_nat fuel -> ceil_from fuel k x <= m.
+Proof.
+  induction fuel as [|f IH]; intros k Hm Hk Hf; simpl.
+  - lia.
+  - destruct (PrimFloat.leb x (fl k)) eqn:E; [lia|].
+    assert (k <> m) by (intros ->; congruence). apply IH; [assumption | lia | lia].
+Qed.
+
+Lemma ceil_lower x X m fuel : fv x X -> (IZR m < X)%R -> 0 <= m < 2 ^ 52 -> m + 1 <= Z.of_nat fuel ->
+  m + 1 <= ceil_from fuel 0 x.
+Proof.
+  intros Fx HX Hm Hf. apply ceil_from_lower; [|lia].
+  intros i Hi. rewrite (leb_fl x X i Fx) by lia. apply Rle_bool_false.
+  eapply Rle_lt_trans; [apply IZR_le|exact HX]. lia.
+Qed.
+
+Lemma ceil_upper x X m fuel : fv x X -> (X <= IZR m)%R -> 0 <= m < 2 ^ 52 -> m <= Z.of_nat fuel ->
+  ceil_from fuel 0 x <= m.
+Proof.
+  intros Fx HX Hm Hf. apply ceil_from_upper; [|lia|lia].
+  rewrite (leb_fl x X m Fx) by lia. now apply Rle_bool_true.
+Qed.
+
+Definition xz (n b s a : Z) (flag : bool) : PrimFloat.float :=
+  (PrimFloat.div (PrimFloat.add (PrimFloat.div (fl n) (PrimFloat.div (fl a) (fl s)))
+      (PrimFloat.mul (PrimFloat.mul cst (fl b)) (fl (if flag then 1 else 0)))) (fl b)).
+
+Local Open Scope R_scope.
+
+Lemma IZR_bnd z lo hi : (lo <= z <= hi)%Z -> IZR lo <= IZR z <= IZR hi.
+Proof. intros [H1 H2]. split; apply IZR_le; assumption. Qed.
+
+Lemma pos_neq0 r : 0 < r -> r <> 0.
+Proof. intros H. lra. Qed.
+
+Lemma xz_low n b j a :
+  (1 <= b)%Z -> (1 <= j)%Z -> (j * b <= 2 ^ 40)%Z -> (1 <= a < n)%Z -> (n <= 2 ^ 40)%Z ->
+  exists X, fv (xz n b (j * b) a true) X /\ IZR j < X.
+Proof.
+  intros Hb Hj Hs Ha Hn.
+  assert (Bb : (1 <= b <= 1099511627776)%Z) by nia.
+  assert (Bj : (1 <= j <= 1099511627776)%Z) by nia.
+  assert (Bs : (1 <= j * b <= 1099511627776)%Z) by nia.
+  assert (Ba : (1 <= a <= 1099511627776)%Z) by lia.
+  assert (Bn : (1 <= n <= 1099511627776)%Z) by lia.
+  assert (Fb := fv_fl b ltac:(lia)). assert (Fs := fv_fl (j * b) ltac:(lia)).
+  assert (Fa := fv_fl a ltac:(lia)). assert (Fn := fv_fl n ltac:(lia)).
+  assert (F1 := fv_fl 1 ltac:(lia)).
+  apply IZR_bnd in Bb, Bj, Bs, Ba, Bn.
+  assert (Es : IZR (j * b) = IZR j * IZR b) by apply mult_IZR.
+  set (rs := IZR (j * b)) in *. set (rb := IZR b) in *. set (rj := IZR j) in *. set (ra := IZR a) in *. set (rn := IZR n) in *.
+  unfold xz.
+  destruct (fv_div _ _ _ _ Fa Fs) as [e1 [He1 Frate]]; [apply pos_neq0; lra | right; interval |].
+  destruct (fv_div _ _ _ _ Fn Frate) as [e2 [He2 Fq]];
+    [apply pos_neq0; interval | right; interval |].
+  destruct (fv_mul _ _ _ _ fv_cst Fb) as [e3 [He3 Fm1]]; [right; interval|].
+  destruct (fv_mul _ _ _ _ Fm1 F1) as [e4 [He4 Fm]]; [right; interval|].
+  destruct (fv_add _ _ _ _ Fq Fm) as [e5 [He5 Fsum]]; [right; interval|].
+  destruct (fv_div _ _ _ _ Fsum Fb) as [e6 [He6 Fx]]; [apply pos_neq0; lra | right; interval |].
+  eexists. split; [exact Fx|].
+  set (P := (1 + e2) * (1 + e5) * (1 + e6) / (1 + e1)).
+  set (Q := C * (1 + e3) * (1 + e4) * (1 + e5) * (1 + e6)).
+  match goal with |- _ < ?X => replace X with (rn / ra * (rj * P) + Q) end.
+  2:{ unfold P, Q. rewrite Es. field. repeat split; lra. }
+  assert (HP : 1 - / 2 ^ 50 <= P) by (unfold P; interval with (i_prec 100)).
+  assert (HQ : 19 / 100 <= Q) by (unfold Q; interval).
+  assert (Han : ra <= rn) by (apply IZR_le; lia).
+  assert (Ht : 1 <= rn / ra).
+  { replace (rn / ra) with (1 + (rn - ra) * / ra) by (field; lra).
+    assert (0 <= (rn - ra) * / ra); [|lra].
+    apply Rmult_le_pos; [lra|]. left. apply Rinv_0_lt_compat. lra. }
+  assert (H1 : rj - / 1024 <= rj * P).
+  { apply Rle_trans with (rj * (1 - / 2 ^ 50)); [|apply Rmult_le_compat_l; lra].
+    assert (rj * / 2 ^ 50 <= / 1024); [|lra].
+    apply Rle_trans with (1099511627776 * / 2 ^ 50); [apply Rmult_le_compat_r; lra | lra]. }
+  assert (H2 : rj * P <= rn / ra * (rj * P)).
+  { rewrite <- (Rmult_1_l (rj * P)) at 1. apply Rmult_le_compat_r; lra. }
+  lra.
+Qed.
+
+Lemma xz_high n b j a :
+  (1 <= b)%Z -> (1 <= j)%Z -> (j * b <= 2 ^ 40)%Z -> (1 <= n <= a)%Z -> (a <= 2 ^ 41)%Z ->
+  exists X, fv (xz n b (j * b) a false) X /\ X <= IZR (j + 1).
+Proof.
+  intros Hb Hj Hs Hn Ha.
+  assert (Bb : (1 <= b <= 1099511627776)%Z) by nia.
+  assert (Bj : (1 <= j <= 1099511627776)%Z) by nia.
+  assert (Bs : (1 <= j * b <= 1099511627776)%Z) by nia.
+  assert (Ba : (1 <= a <= 2199023255552)%Z) by lia.
+  assert (Bn : (1 <= n <= 2199023255552)%Z) by lia.
+  assert (Fb := fv_fl b ltac:(lia)). assert (Fs := fv_fl (j * b) ltac:(lia)).
+  assert (Fa := fv_fl a ltac:(lia)). assert (Fn := fv_fl n ltac:(lia)).
+  assert (F0 := fv_fl 0 ltac:(lia)).
+  apply IZR_bnd in Bb, Bj, Bs, Ba, Bn.
+  assert (Es : IZR (j * b) = IZR j * IZR b) by apply mult_IZR.
+  rewrite plus_IZR.
+  set (rs := IZR (j * b)) in *. set (rb := IZR b) in *. set (rj := IZR j) in *.
+  set (ra := IZR a) in *. set (rn := IZR n) in *.
+  unfold xz.
+  destruct (fv_div _ _ _ _ Fa Fs) as [e1 [He1 Frate]]; [apply pos_neq0; lra | right; interval |].
+  destruct (fv_div _ _ _ _ Fn Frate) as [e2 [He2 Fq]];
+    [apply pos_neq0; interval | right; interval |].
+  destruct (fv_mul _ _ _ _ fv_cst Fb) as [e3 [He3 Fm1]]; [right; interval|].
+  destruct (fv_mul _ _ _ _ Fm1 F0) as [e4 [He4 Fm]]; [left; ring|].
+  destruct (fv_add _ _ _ _ Fq Fm) as [e5 [He5 Fsum]]; [right; interval|].
+  destruct (fv_div _ _ _ _ Fsum Fb) as [e6 [He6 Fx]]; [apply pos_neq0; lra | right; interval |].
+  eexists. split; [exact Fx|].
+  set (P := (1 + e2) * (1 + e5) * (1 + e6) / (1 + e1)).
+  match goal with |- ?X <= _ => replace X with (rn / ra * (rj * P)) end.
+  2:{ unfold P. rewrite Es. field. repeat split; lra. }
+  assert (HP : 0 <= P <= 1 + / 2 ^ 50) by (unfold P; interval with (i_prec 100)).
+  assert (Han : rn <= ra) by (apply IZR_le; lia).
+  assert (Ht : 0 <= rn / ra <= 1).
+  { split.
+    - apply Rmult_le_pos; [lra|]. left. apply Rinv_0_lt_compat. lra.
+    - replace (rn / ra) with (1 - (ra - rn) * / ra) by (field; lra).
+      assert (0 <= (ra - rn) * / ra); [|lra].
+      apply Rmult_le_pos; [lra|]. left. apply Rinv_0_lt_compat. lra. }
+  assert (H0 : 0 <= rj * P) by (apply Rmult_le_pos; lra).
+  assert (H1 : rj * P <= rj + / 1024).
+  { apply Rle_trans with (rj * (1 + / 2 ^ 50)); [apply Rmult_le_compat_l; lra|].
+    assert (rj * / 2 ^ 50 <= / 1024); [|lra].
+    apply Rle_trans with (1099511627776 * / 2 ^ 50); [apply Rmult_le_compat_r; lra | lra]. }
+  assert (H2 : rn / ra * (rj * P) <= rj * P).
+  { rewrite <- (Rmult_1_l (rj * P)) at 2. apply Rmult_le_compat_r; lra. }
+  lra.
+Qed.
+
+Local Close Scope R_scope.
+Local Open Scope nat_scope.
+
+Lemma estimate_batches_xz n b s a obj : a <> 0 ->
+  estimate_batches n b s a obj =
+  Z.to_nat (ceil_from (4 * (n + b) * (S s) + 8) 0
+              (xz (Z.of_nat n) (Z.of_nat b) (Z.of_nat s) (Z.of_nat a) (Nat.ltb a n))).
+Proof.
+  intros Ha. unfold estimate_batches. destruct (Nat.eqb_spec a 0) as [E|_]; [contradiction|]. reflexivity.
+Qed.
+
+Theorem estimator_safe_unbounded n b k acc obj :
+  1 <= n -> 1 <= b -> 1 <= k -> 1 <= acc <= n + b ->
+  (Z.of_nat n <= 2 ^ 40)%Z -> (Z.of_nat (k * b) <= 2 ^ 40)%Z ->
+  (acc < n -> k < estimate_batches n b (k * b) acc obj) /\
+  (n <= acc -> estimate_batches n b (k * b) acc obj <= S k).
+Proof.
+  intros Hn Hb Hk Ha Bn Bs. rewrite estimate_batches_xz by lia.
+  rewrite Nat2Z.inj_mul in Bs.
+  assert (Bk : (Z.of_nat k < 2 ^ 52)%Z) by nia.
+  assert (Bb : (Z.of_nat b <= 2 ^ 40)%Z) by nia.
+  assert (Hf : (Z.of_nat k + 1 <= Z.of_nat (4 * (n + b) * S (k * b) + 8))%Z) by nia.
+  set (fuel := 4 * (n + b) * S (k * b) + 8) in *. clearbody fuel.
+  rewrite Nat2Z.inj_mul. split.
+  - intros Hlt. apply Nat.ltb_lt in Hlt. rewrite Hlt. apply Nat.ltb_lt in Hlt.
+    destruct (xz_low (Z.of_nat n) (Z.of_nat b) (Z.of_nat k) (Z.of_nat acc)) as [X [FX HX]]; try lia.
+    pose proof (ceil_lower _ X (Z.of_nat k) fuel FX HX ltac:(lia) Hf). lia.
+  - intros Hge. apply Nat.ltb_ge in Hge. rewrite Hge. apply Nat.ltb_ge in Hge.
+    destruct (xz_high (Z.of_nat n) (Z.of_nat b) (Z.of_nat k) (Z.of_nat acc)) as [X [FX HX]]; try lia.
+    pose proof (ceil_upper _ X (Z.of_nat k + 1) fuel FX HX ltac:(lia) Hf). lia.
+Qed.
+
+Example estimator_outside_old_domain : estimate_batches 1000 100 (37 * 100) 12 0 = 3084.
+Proof. vm_compute. reflexivity. Qed.
+
+(** in the shape of [estimator_safe]: the run never stops (estimate <= consumed batches) with fewer
+    than n acceptable draws, and asks for at most one more batch once n are held *)
+Corollary estimator_safe_unbounded_stops n b k acc :
+  1 <= n -> 1 <= b -> 1 <= k -> 1 <= acc <= n + b ->
+  (Z.of_nat n <= 2 ^ 40)%Z -> (Z.of_nat (k * b) <= 2 ^ 40)%Z ->
+  (stops n b k acc = true -> n <= acc) /\
+  (n <= acc -> estimate_batches n b (k * b) acc 0 <= S k).
+Proof.
+  intros Hn Hb Hk Ha Bn Bs.
+  destruct (estimator_safe_unbounded n b k acc 0 Hn Hb Hk Ha Bn Bs) as [H1 H2]. split; [|exact H2].
+  intros Hs. unfold stops in Hs. apply Nat.leb_le in Hs.
+  destruct (Nat.lt_ge_cases acc n) as [Hlt|Hge]; [|exact Hge]. specialize (H1 Hlt). lia.
+Qed.
